@@ -153,7 +153,7 @@ def verify_target(repo_root: str, relpath: str, qualname: str, contract: dict, r
     """verify one function; returns a plain-data report (picklable)."""
     t0 = time.time()
     rep = dict(fn=f'{relpath}:{qualname}', relpath=relpath, qualname=qualname, obligations=[], unsupported=[],
-               status='ok', props=contract.get('props', []))
+               status='ok', props=contract.get('props', []), wall_s=0.0)
     try:
         install_records()
         for name, fields in records.items():
